@@ -106,6 +106,14 @@ def one(ctx, facts, cfg, fname, codec, run_name, feeds, result_iter):
             line = body.blocks[ob]['stmts'][0]['line'] if body.blocks[ob]['stmts'] else body.term(ob)['line']
             dominated = any(ts['ok_bb'] is not None and body.edge_dominates((ts['switch_bb'], ts['ok_bb']), ob)
                             for ts in tss)
+            if not dominated and all(ts['ok_bb'] is not None for ts in tss):
+                # several call sites on different branches: together their Ok edges must cut every path to the exit
+                cut = frozenset((ts['switch_bb'], ts['ok_bb']) for ts in tss)
+                okb = frozenset(ts['ok_bb'] for ts in tss)
+                # a path that avoids every Ok edge: walk without crossing those edges; the Ok blocks themselves may be entered
+                # only through them when each has the switch as its single predecessor
+                if all(body.preds(ob_) == [sw_] for (sw_, ob_) in cut):
+                    dominated = ob not in body.reachable_from(0, removed_edges=cut)
             if dominated:
                 ctx.ok('C10.a-must-pass', '%s:Ok<-%s@%s' % (fname, what, cfg),
                        {'ok_exit': line, 'dominated_by_ok_edge_of': path})
@@ -197,6 +205,35 @@ def one(ctx, facts, cfg, fname, codec, run_name, feeds, result_iter):
             ctx.ok('C10.b-iterators', '%s:%s@%s' % (fname, pn, cfg), {'next_sites': len(ns)})
         next_sites[pn] = ns
 
+    # ---- (b3) every input is drained: each path to an Ok exit passes the None edge of a next() on that input (the end of the
+    # loop that adds its items), so no item is left behind on some branch
+    ctx.rule('C10.l-inputs-drained', 'on every path to Ok each caller iterator has been taken from until it returned None: no shard of the input is silently left out on some branch (a one-shot call must equal the streaming sequence that adds every shard)')
+    for pn, ns in next_sites.items():
+        if not ns:
+            continue
+        none_edges = set()
+        for (nb, dest) in ns:
+            flow = core.forward_flow(body, {dest})
+            for sb in range(body.n):
+                stt = body.term(sb)
+                if stt['k'] != 'switch' or body.blocks[sb]['cleanup']:
+                    continue
+                c = body.canon_op(stt['discr'])
+                if c[0] == 'discr' and (root_local(c[1]) in flow or (op_place(stt['discr']) and discr_source(body, stt['discr']) in flow)):
+                    vals_ = [v for v, _ in stt['targets']]
+                    for v, tgt in stt['targets']:
+                        if v == 0:
+                            none_edges.add((sb, tgt))
+                    if 0 not in vals_ and 1 in vals_ and stt.get('otherwise') is not None:
+                        none_edges.add((sb, stt['otherwise']))      # `if let Some(..) = it.next() { .. } else { <None> }`
+        reach_nd = body.reachable_from(0, removed_edges=frozenset(none_edges))
+        leaked = [ob for ob in ok_blocks if ob in reach_nd]
+        if none_edges and not leaked:
+            ctx.ok('C10.l-inputs-drained', '%s:%s@%s' % (fname, pn, cfg), {'none_edges': len(none_edges)})
+        else:
+            ctx.violation('C10.l-inputs-drained', 'not-drained:%s' % pn,
+                          'an Ok exit of %s is reachable on a path on which `%s` was never taken from until it was empty: the shards left in it are silently ignored'
+                          % (fname, pn), site=body.term(leaked[0])['line'] if leaked else fn.span, fn=fname, cfg=cfg)
     # ---- (b2) items reach add
     reach0 = body.reachable_from(0)
     for pn, ns in next_sites.items():
